@@ -93,6 +93,12 @@ pub fn apply_index_damage(dir: &Path, d: &Damage, _keylen: usize) -> Option<&'st
             std::fs::write(path, bytes).ok()?;
             Some("index_header_zeroed")
         }
+        DamageKind::Append { n, fill } => {
+            use std::io::Write;
+            let mut f = std::fs::OpenOptions::new().append(true).open(path).ok()?;
+            f.write_all(&vec![*fill; *n as usize]).ok()?;
+            Some("index_bytes_appended")
+        }
     }
 }
 
